@@ -107,18 +107,23 @@ func DictNew(metatype *Type, args Tuple, kwargs StringDict) (Object, error) {
 	out := NewStringDict()
 	if len(args) == 1 {
 		arg := args[0]
-		seq, err := SequenceList(arg)
-		if err != nil {
-			return nil, err
-		}
-		for _, i := range seq.Items {
-			switch z := i.(type) {
-			case Tuple:
-				if zStr, ok := z[0].(String); ok {
-					out[string(zStr)] = z[1]
+		if d, ok := arg.(StringDict); ok {
+			// dict(mapping) makes a shallow copy of the mapping
+			out = d.Copy()
+		} else {
+			seq, err := SequenceList(arg)
+			if err != nil {
+				return nil, err
+			}
+			for _, i := range seq.Items {
+				switch z := i.(type) {
+				case Tuple:
+					if zStr, ok := z[0].(String); ok {
+						out[string(zStr)] = z[1]
+					}
+				default:
+					return nil, ExceptionNewf(TypeError, "non-tuple sequence")
 				}
-			default:
-				return nil, ExceptionNewf(TypeError, "non-tuple sequence")
 			}
 		}
 	}
